@@ -7,7 +7,9 @@ mod c08;
 mod vals;
 mod c09;
 mod c10;
+mod c12;
 mod c13;
+mod reg;
 mod c17;
 mod c19;
 mod gen;
@@ -25,6 +27,7 @@ fn main() {
         "c08" => c08::main(args),
         "c09" => c09::main(args),
         "c10" => c10::main(args),
+        "c12" => c12::main(args),
         "c13" => c13::main(args),
         "c17" => c17::main(args),
         "c19" => c19::main(args),
